@@ -1,16 +1,22 @@
 package verifharness
 
 import (
+	"bytes"
 	"context"
 	"crypto/ecdsa"
 	"crypto/elliptic"
 	"crypto/sha256"
 	"fmt"
 	"io"
+	"net/http"
+	"net/http/httptest"
 	"os"
 	"os/exec"
 	"path/filepath"
+	"strings"
+	"sync"
 	"testing"
+	"time"
 
 	"crawshaw.io/sqlite"
 	"crawshaw.io/sqlite/sqlitex"
@@ -71,6 +77,12 @@ func TestC07Recompute(t *testing.T) {
 			continue
 		}
 		runRecompute(r, rng.Fork(fmt.Sprint(size)), size)
+	}
+	if mine(len(sizes)) {
+		runRecomputeDuplicates(r, rng.Fork("duplicates"))
+	}
+	if mine(len(sizes) + 1) {
+		runRecomputeParallel(r, rng.Fork("parallel"))
 	}
 }
 
@@ -223,4 +235,279 @@ func lastBytes(b []byte, n int) string {
 		b = b[len(b)-n:]
 	}
 	return string(b)
+}
+
+// recomputeFixture builds a log on a LocalBackend directory with the real
+// sequencer and keeps the instance open.
+type recomputeFixture struct {
+	dir, logDir, cache, cfgPath string
+	cfg                         *ctlog.Config
+	l                           *ctlog.Log
+	occ                         map[[32]byte][]*RefEntry // identity key -> leaves holding it
+}
+
+func newRecomputeFixture(r *Run, rng *Rng) *recomputeFixture {
+	f := &recomputeFixture{occ: map[[32]byte][]*RefEntry{}}
+	f.dir, _ = os.MkdirTemp(scratchRoot(), "recompute-")
+	f.logDir = filepath.Join(f.dir, "log")
+	os.MkdirAll(f.logDir, 0o755)
+	seed := rng.Bytes(32)
+	seedPath := filepath.Join(f.dir, "seed.bin")
+	os.WriteFile(seedPath, seed, 0o600)
+	f.cache = filepath.Join(f.dir, "cache.db")
+	backend, err := ctlog.NewLocalBackend(context.Background(), f.logDir, discardLogger)
+	if err != nil {
+		panic(err)
+	}
+	env := NewLogEnv(r, rng)
+	defer env.Cleanup()
+	f.cfg = &ctlog.Config{
+		Name: "verif.example/recompute", Key: logKeyFromSeed(seed), WitnessKey: detMLDSA(rng), Cache: f.cache,
+		Backend: backend, Lock: &LockBackend{In: NewInst(NewWorld(), "local")}, Log: discardLogger,
+		NotAfterStart: env.NotAfterStart, NotAfterLimit: env.NotAfterLimit,
+	}
+	if err := ctlog.CreateLog(context.Background(), f.cfg); err != nil {
+		panic(err)
+	}
+	f.reload()
+	yml := fmt.Sprintf("logs:\n  - shortname: t\n    secret: %s\n    cache: %s\n    localdirectory: %s\n", seedPath, f.cache, f.logDir)
+	f.cfgPath = filepath.Join(f.dir, "sunlight.yaml")
+	os.WriteFile(f.cfgPath, []byte(yml), 0o644)
+	return f
+}
+
+func (f *recomputeFixture) reload() {
+	if f.l != nil {
+		f.l.CloseCache()
+	}
+	l, err := ctlog.LoadLog(context.Background(), f.cfg)
+	if err != nil {
+		panic(err)
+	}
+	f.l = l
+}
+
+func (f *recomputeFixture) close() {
+	if f.l != nil {
+		f.l.CloseCache()
+	}
+	unlockTree(f.dir)
+	os.RemoveAll(f.dir)
+}
+
+// round submits the entries and sequences them; returns (source, leaf) per entry.
+func (f *recomputeFixture) round(es []*ctlog.PendingLogEntry) ([]string, []*RefEntry) {
+	var waits []ctlog.VerifWaitEntryFunc
+	var srcs []string
+	for _, e := range es {
+		w, src := f.l.VerifAddLeafToPool(context.Background(), cloneEntry(e), false)
+		waits, srcs = append(waits, w), append(srcs, src)
+	}
+	if err := f.l.VerifSequence(context.Background()); err != nil {
+		panic(err)
+	}
+	out := make([]*RefEntry, len(es))
+	for i, w := range waits {
+		le, err := w(context.Background())
+		if err != nil {
+			continue
+		}
+		out[i] = pendingToRef(es[i], le.LeafIndex, le.Timestamp)
+		if srcs[i] == "sequencer" {
+			k := refCacheKey(out[i])
+			f.occ[k] = append(f.occ[k], out[i])
+		}
+	}
+	return srcs, out
+}
+
+func (f *recomputeFixture) rows() map[[32]byte][2]int64 {
+	rows := map[[32]byte][2]int64{}
+	conn, err := sqlite.OpenConn(f.cache, 0)
+	if err != nil {
+		return rows
+	}
+	defer conn.Close()
+	sqlitex.Exec(conn, "SELECT key, timestamp, leaf_index FROM cache256", func(stmt *sqlite.Stmt) error {
+		var k [32]byte
+		stmt.GetBytes("key", k[:])
+		rows[k] = [2]int64{stmt.GetInt64("timestamp"), stmt.GetInt64("leaf_index")}
+		return nil
+	})
+	return rows
+}
+
+// runRecomputeDuplicates: the log holds duplicate leaves (the cache was lost
+// between two submissions of the same entries) and the tool runs on the LIVE,
+// non-empty cache: every row must still name one leaf that holds that entry
+// with that timestamp.
+func runRecomputeDuplicates(r *Run, rng *Rng) {
+	f := newRecomputeFixture(r, rng)
+	defer f.close()
+	info := map[string]any{"workload": "recompute-cache-duplicates-live-cache"}
+	viol := func(id, format string, a ...any) { r.Violate(id, info, format, a...) }
+	simAuto.Store(true)
+	defer simAuto.Store(false)
+	var first []*ctlog.PendingLogEntry
+	for i := 0; i < 300; i++ {
+		first = append(first, genEntry(rng, cheapShape(rng)))
+	}
+	f.round(first[:200])
+	f.round(first[200:])
+	// cache loss, then some of them again (tolerated duplicates), plus new ones
+	f.l.CloseCache()
+	f.l = nil
+	os.Remove(f.cache)
+	f.reload()
+	var again []*ctlog.PendingLogEntry
+	for i := 0; i < 40; i++ {
+		again = append(again, first[rng.Intn(len(first))])
+	}
+	for i := 0; i < 30; i++ {
+		again = append(again, genEntry(rng, cheapShape(rng)))
+	}
+	f.round(again)
+	f.l.CloseCache()
+	f.l = nil
+	out, err := exec.Command(verifBin("recompute-cache"), "-c", f.cfgPath, "-log", "t").CombinedOutput()
+	if err != nil {
+		viol("recompute-cache-failed", "recompute-cache exited with %v: %s", err, lastBytes(out, 400))
+		return
+	}
+	r.Eval(1)
+	dups := 0
+	for k, v := range f.rows() {
+		occ := f.occ[k]
+		if len(occ) > 1 {
+			dups++
+		}
+		ok := false
+		for _, e := range occ {
+			ok = ok || (e.Timestamp == v[0] && e.LeafIndex == v[1])
+		}
+		if !ok {
+			viol("recomputed-row-wrong-leaf", "after the tool ran on a live cache, a row maps an entry to (index %d, timestamp %d), which is none of the %d leaves holding that entry", v[1], v[0], len(occ))
+		}
+	}
+	r.DistinctKey(fmt.Sprintf("recompute-duplicates/dups>0=%v", dups > 0))
+	r.Count("recompute_rows_with_duplicate_leaves", int64(dups))
+	// acknowledgements from that cache name a real leaf
+	f.reload()
+	for _, e := range append(append([]*ctlog.PendingLogEntry{}, first[:40]...), again...) {
+		w, src := f.l.VerifAddLeafToPool(context.Background(), cloneEntry(e), false)
+		if src != "cache" {
+			continue
+		}
+		le, err := w(context.Background())
+		if err != nil {
+			continue
+		}
+		ok := false
+		for _, o := range f.occ[refCacheKey(pendingToRef(e, 0, 0))] {
+			ok = ok || (o.LeafIndex == le.LeafIndex && o.Timestamp == le.Timestamp)
+		}
+		if !ok {
+			viol("recomputed-ack-wrong", "a resubmission was acknowledged from the cache as (index %d, timestamp %d), which is no leaf holding that entry", le.LeafIndex, le.Timestamp)
+		}
+		r.Count("resubmit_cache_after_duplicates", 1)
+	}
+}
+
+// runRecomputeParallel: the tool runs IN PARALLEL with production (its
+// documented use) against the live cache, reading the log through a monitoring
+// prefix served by the harness, which holds the request for the 51st data tile
+// (the client fetches tiles in batches of 50): the tool sits in the middle of
+// its run, rows of the first batch written, for as long as a sequencing round
+// of the running log needs. An entry acknowledged meanwhile must be answered
+// from the cache when resubmitted.
+func runRecomputeParallel(r *Run, rng *Rng) {
+	f := newRecomputeFixture(r, rng)
+	defer f.close()
+	info := map[string]any{"workload": "recompute-cache-in-parallel-with-production"}
+	viol := func(id, format string, a ...any) { r.Violate(id, info, format, a...) }
+	simAuto.Store(true)
+	defer simAuto.Store(false)
+	total := 51*256 + 44
+	for done := 0; done < total; {
+		k := min(total-done, 2000+rng.Intn(1500))
+		es := make([]*ctlog.PendingLogEntry, k)
+		for i := range es {
+			es[i] = genEntry(rng, ShapeBlobX509)
+		}
+		f.round(es)
+		done += k
+	}
+	held, release := make(chan struct{}, 1), make(chan struct{})
+	var once sync.Once
+	fs := http.FileServer(http.Dir(f.logDir))
+	srv := httptest.NewServer(http.HandlerFunc(func(w http.ResponseWriter, q *http.Request) {
+		if strings.HasSuffix(q.URL.Path, "/tile/data/050") {
+			once.Do(func() { held <- struct{}{} })
+			select {
+			case <-release:
+			case <-q.Context().Done():
+				return
+			}
+		}
+		if strings.Contains(q.URL.Path, "/tile/data/") || strings.Contains(q.URL.Path, "/tile/names/") {
+			w.Header().Set("Content-Encoding", "gzip")
+		}
+		fs.ServeHTTP(w, q)
+	}))
+	defer srv.Close()
+	seedPath := filepath.Join(f.dir, "seed.bin")
+	yml := fmt.Sprintf("logs:\n  - shortname: t\n    secret: %s\n    cache: %s\n    monitoringprefix: %s\n", seedPath, f.cache, srv.URL)
+	cfgPath := filepath.Join(f.dir, "sunlight-http.yaml")
+	os.WriteFile(cfgPath, []byte(yml), 0o644)
+	tool := exec.Command(verifBin("recompute-cache"), "-c", cfgPath, "-log", "t")
+	var toolOut bytes.Buffer
+	tool.Stdout, tool.Stderr = &toolOut, &toolOut
+	if err := tool.Start(); err != nil {
+		r.Inconcl("cannot start the tool: %v", err)
+		return
+	}
+	toolDone := make(chan error, 1)
+	go func() { toolDone <- tool.Wait() }()
+	select {
+	case <-held:
+	case err := <-toolDone:
+		viol("recompute-cache-failed", "recompute-cache (over the monitoring prefix) ended before reaching the 51st data tile: %v: %s", err, lastBytes(toolOut.Bytes(), 400))
+		return
+	case <-time.After(120 * time.Second):
+		tool.Process.Kill()
+		r.Inconcl("the tool did not reach the 51st data tile")
+		return
+	}
+	time.Sleep(300 * time.Millisecond) // the rows of the first batch are being written
+	y := genEntry(rng, ShapeBlobX509)
+	t0 := time.Now()
+	_, leaves := f.round([]*ctlog.PendingLogEntry{y})
+	info["round_next_to_tool_ms"] = time.Since(t0).Milliseconds()
+	r.Eval(1)
+	close(release)
+	select {
+	case err := <-toolDone:
+		if err != nil {
+			viol("recompute-cache-failed", "recompute-cache (in parallel with production) exited with %v: %s", err, lastBytes(toolOut.Bytes(), 400))
+			return
+		}
+	case <-time.After(180 * time.Second):
+		tool.Process.Kill()
+		r.Inconcl("the tool did not finish")
+		return
+	}
+	if leaves[0] == nil {
+		viol("production-round-failed-next-to-tool", "a submission sequenced while the tool was running was not acknowledged")
+		return
+	}
+	w, src := f.l.VerifAddLeafToPool(context.Background(), cloneEntry(y), false)
+	r.DistinctKey("recompute-parallel/resubmission-source=" + src)
+	if src == "sequencer" {
+		viol("acked-entry-readmitted", "an entry acknowledged while recompute-cache was running in parallel was admitted as a new leaf when resubmitted (no cache loss occurred; its round took %d ms)", info["round_next_to_tool_ms"])
+		f.l.VerifSequence(context.Background())
+	}
+	if le, err := w(context.Background()); err == nil && (le.LeafIndex != leaves[0].LeafIndex || le.Timestamp != leaves[0].Timestamp) {
+		viol("different-acks-for-one-entry", "an entry acknowledged while recompute-cache was running got (index %d, timestamp %d) first and (index %d, timestamp %d) on resubmission", leaves[0].LeafIndex, leaves[0].Timestamp, le.LeafIndex, le.Timestamp)
+	}
+	r.Count("recompute_parallel_runs", 1)
 }
